@@ -18,7 +18,7 @@ import z3
 CVC5 = "/usr/bin/cvc5"
 
 
-def _subterm_ids(e, acc, consts):
+def _subterm_ids(e, acc, consts, apps=None):
     stack = [e]
     while stack:
         x = stack.pop()
@@ -27,8 +27,12 @@ def _subterm_ids(e, acc, consts):
             continue
         acc.add(i)
         if z3.is_app(x):
-            if x.num_args() == 0 and x.decl().kind() == z3.Z3_OP_UNINTERPRETED and "!" in x.decl().name():
-                consts.add(i)
+            if x.decl().kind() == z3.Z3_OP_UNINTERPRETED:
+                if x.num_args() == 0:
+                    if "!" in x.decl().name():
+                        consts.add(i)
+                elif apps is not None:
+                    apps.add(x.decl().name())
             stack.extend(x.children())
 
 
@@ -38,34 +42,37 @@ def select_facts(ob):
     indices of other obligations, skolems) occur in it.  Dropping facts is
     sound for 'proved'; a 'refuted' on the filtered query is re-checked on the full one."""
     from .terms import TRIGGERS
-    cone, consts = set(), set()
+    cone, consts, cone_decls = set(), set(), set()
     roots = list(ob.pc)
     if isinstance(ob.goal, z3.ExprRef):
         roots.append(ob.goal)
     for (lbl, t) in ((ob.meta or {}).get("watches") or []):
         pass
     for r in roots:
-        _subterm_ids(r, cone, consts)
+        _subterm_ids(r, cone, consts, cone_decls)
     info = []
     for f in ob.facts:
-        ids, cs = set(), set()
-        _subterm_ids(f, ids, cs)
-        info.append((f, ids, cs, TRIGGERS.get(f.get_id())))
+        ids, cs, ap = set(), set(), set()
+        _subterm_ids(f, ids, cs, ap)
+        info.append((f, ids, cs, TRIGGERS.get(f.get_id()), ap))
     chosen = [False] * len(info)
     changed = True
     while changed:
         changed = False
-        for k, (f, ids, cs, trig) in enumerate(info):
+        for k, (f, ids, cs, trig, ap) in enumerate(info):
             if chosen[k]:
                 continue
             if trig is not None:
                 ok = trig.get_id() in cone
             else:
-                ok = cs <= consts
+                # facts about uninterpreted functions (arrays, contract results) none of which occurs in the cone say
+                # nothing about the goal (they may enter later, when the cone has grown)
+                ok = cs <= consts and (not ap or not ap.isdisjoint(cone_decls))
             if ok:
                 chosen[k] = True
                 cone |= ids
                 consts |= cs
+                cone_decls |= ap
                 changed = True
     return [info[k][0] for k in range(len(info)) if chosen[k]]
 
@@ -75,12 +82,41 @@ def tier_facts(ob, maxtier):
     return [f for f in ob.facts if TIERS.get(f.get_id(), 2) <= maxtier]
 
 
-def to_smt2(ob, watches=None, filtered=False, maxtier=None):
+def to_smt2(ob, watches=None, filtered=False, maxtier=None, intabs=False):
     s = z3.Solver()
     if maxtier is not None:
         facts = tier_facts(ob, maxtier)
     else:
         facts = select_facts(ob) if filtered else ob.facts
+    if intabs:
+        # integer-product abstraction (terms.abstract_int_products): only an `unsat` answer is used
+        from .terms import abstract_int_products as ab1, abstract_real_products as ab2
+        ab = lambda x: ab2(ab1(x))
+        for f in facts:
+            s.add(ab(f))
+        for f in ob.pc:
+            s.add(ab(f))
+        g = ob.goal
+        s.add(z3.BoolVal(False) if g is True else (z3.BoolVal(True) if g is False else z3.Not(ab(g))))
+        # commutativity instances of the uninterpreted product (true of the real product)
+        from .terms import _RMUL
+        seen, st, inst = set(), list(s.assertions()), []
+        while st:
+            x = st.pop()
+            if x.get_id() in seen:
+                continue
+            seen.add(x.get_id())
+            if z3.is_app(x):
+                if x.decl().eq(_RMUL):
+                    u, v = x.arg(0), x.arg(1)
+                    inst.append(x == _RMUL(v, u))
+                    # oddness in each argument (reflections negate one factor)
+                    inst.append(_RMUL(u, -v) == -x)
+                    inst.append(_RMUL(-u, v) == -x)
+                st.extend(x.children())
+        for f in inst:
+            s.add(f)
+        return s.to_smt2(), []
     for f in facts:
         s.add(f)
     for f in ob.pc:
@@ -276,7 +312,7 @@ def solve_task(task):
                     st, inf = _solve_split(ttext, max(2000, ms // 5))
                 log.append(("z3-tier%d" % tk, st, round(time.time() - ts, 3)))
                 if st == "proved":
-                    status, info, backend = st, inf, "z3"
+                    status, info, backend = st, inf, ("z3-abstraction" if tk == opts.get("abs_tier") else "z3")
                     break
             for step in (steps if status != "proved" else []):
                 ts = time.time()
@@ -350,14 +386,28 @@ def _ob_task(args):
                 t_, _ = to_smt2(ob, None, maxtier=mt)
                 if t_ != text and (not tt or tt[-1] != t_):
                     tt.append(t_)
+            try:
+                # products abstracted (integer monomials -> opaque integers, real products -> uninterpreted function):
+                # decides index case analyses and goals that hold by congruence; only `unsat` is used
+                ta, _ = to_smt2(ob, None, filtered=True, intabs=True)
+                if ta != text:
+                    opts["abs_tier"] = len(tt)
+                    tt.append(ta)
+            except Exception as e:
+                opts["abs_error"] = repr(e)[:200]
             opts["tier_texts"] = tt
         if dump:
             os.makedirs("/var/tmp/pyvc_dump", exist_ok=True)
             open("/var/tmp/pyvc_dump/" + re.sub(r"[^A-Za-z0-9_.=,+-]+", "_", ob.name)[:150] + ".smt2", "w").write(text)
+            if opts.get("abs_tier") is not None:
+                open("/var/tmp/pyvc_dump/" + re.sub(r"[^A-Za-z0-9_.=,+-]+", "_", ob.name)[:150] + ".abs.smt2", "w").write(
+                    opts["tier_texts"][opts["abs_tier"]])
     except Exception as e:
         return {"name": ob.name, "status": "unknown", "info": "export error: %r" % (e,), "backend": "-", "time": 0.0,
                 "log": [], "names": [], "head": ""}
     r = solve_task((ob.name, text, timeout, opts))
+    if opts.get("abs_error"):
+        r["log"].append(("abstraction-export", opts["abs_error"], 0))
     r["names"] = names
     r["head"] = text[:600]
     return r
